@@ -180,6 +180,25 @@ def run_item(item):
         except Exception:  # noqa: BLE001
             pass
     env._ENV.clear()
+    # the date may be given as ISO string or (for 1 January) as an int year: same environment as for the date object
+    probe_days = [x for x in item["days"] if int(x[8:10]) <= 12 and x[5:7] != x[8:10]][:3] + item["days"][-1:]
+    for ds_ in probe_days:
+        d_ = datetime.date.fromisoformat(ds_)
+        try:
+            p_obj, f_obj = _setup(d_)
+            variants = [("iso string", ds_)]
+            if d_.month == 1 and d_.day == 1:
+                variants.append(("int year", d_.year))
+            for label, arg in variants:
+                p_str, f_str = _setup(arg)
+                r = env.deep_equal(p_obj, p_str, "params")
+                res["date_format_variants"] = res.get("date_format_variants", 0) + 1
+                if r:
+                    viol("date_format", f"set_up_policy_environment({arg!r}) ({label}) differs from the environment for the date object {ds_}: {r[:200]}", date=ds_)
+                elif {k: id(v) for k, v in f_obj.items()} != {k: id(v) for k, v in f_str.items()}:
+                    viol("date_format", f"set_up_policy_environment({arg!r}) ({label}) selects other implementations than for the date object {ds_}", date=ds_)
+        except Exception as e:  # noqa: BLE001
+            viol(f"date_format:exception:{type(e).__name__}", f"set_up_policy_environment for {ds_!r} as string raises: {str(e)[:150]}", date=ds_)
     for ds in item["days"]:
         d = datetime.date.fromisoformat(ds)
         try:
@@ -270,6 +289,7 @@ def summarize(results, tier, seed):
         consecutive_day_pairs_compared=sum(r["unchanged_pairs"] for r in ok),
         change_days_seen=sum(r["change_days"] for r in ok),
         uncached_setups_compared_with_memo=sum(r["memo_validated"] for r in ok),
+        date_format_variants_compared=sum(r.get("date_format_variants", 0) for r in ok),
         environments_edited_in_place_before_the_set_ups=sum(r.get("poisoned_environments", 0) for r in ok),
         samples=[dict(days=r["_item"]["days"][:5]) for r in ok[:3]],
     )
